@@ -24,7 +24,7 @@ var specs = map[string]*core.PropertySpec{
 	"C05": {Property: "C05", CrashViolation: true, Engine: faultsweep.New("C05", "containment"), QuickS: 75, ThoroughS: 1800, RunCapS: 300},
 	"C11": {Property: "C11", CrashViolation: true, Engine: func() core.Engine {
 		return &combo{main: cancelsweep.New(), sub: map[string]core.Engine{"blocked": multistate.New("C11")()}}
-	}, QuickS: 55, ThoroughS: 1500, RunCapS: 300,
+	}, QuickS: 55, ThoroughS: 1500, RunCapS: 120, HangViolation: true, // a run that does not end is a script that could not be stopped
 		Subs: []core.SubSpec{{Sub: "blocked", BudgetS: 8, Workers: 4}}},
 	"C12": {Property: "C12", CrashViolation: true, Engine: limitswarm.New, QuickS: 60, ThoroughS: 1500, RunCapS: 300},
 	"C06": {Property: "C06", CrashViolation: true, Engine: cosched.New, QuickS: 55, ThoroughS: 1200, RunCapS: 300,
